@@ -126,13 +126,20 @@ namespace details {
     >
     struct find_notification_data_in_list
     {
-        template < typename Characteristics, typename Service >
+        // CharacteristicsAndOffset is a pair of the characteristics found so far and the number of attributes
+        // of the directly preceding services without characteristics
+        template < typename CharacteristicsAndOffset, typename Service >
         struct characteristics_from_service
         {
+            static constexpr std::size_t service_offset = CharacteristicsAndOffset::second_type::value + Service::number_of_service_attributes;
+
             template < typename C >
             struct add_service_offset
             {
                 using type = std::tuple<>;
+
+                // a service without characteristics: its attributes have to be added to the next characteristic
+                using pending_offset = std::integral_constant< std::size_t, service_offset >;
             };
 
             // Add just to the first characteritic of a service the numer of attributes that are used to
@@ -141,15 +148,22 @@ namespace details {
             struct add_service_offset< std::tuple< C, Cs... > >
             {
                 using type = std::tuple<
-                    impl::characteristic_with_service_attribute_offset< C, Service::number_of_service_attributes, Priorities::template characteristic_priority< Services, Service, C >::value >,
+                    impl::characteristic_with_service_attribute_offset< C, service_offset, Priorities::template characteristic_priority< Services, Service, C >::value >,
                     impl::characteristic_with_service_attribute_offset< Cs, 0, Priorities::template characteristic_priority< Services, Service, Cs >::value >... >;
+
+                using pending_offset = std::integral_constant< std::size_t, 0 >;
             };
 
-            using type = typename add_type< Characteristics, typename add_service_offset< typename Service::characteristics >::type >::type;
+            using with_offset = add_service_offset< typename Service::characteristics >;
+
+            using type = pair<
+                typename add_type< typename CharacteristicsAndOffset::first_type, typename with_offset::type >::type,
+                typename with_offset::pending_offset >;
         };
 
         using services                               = Services;
-        using all_characteristics                    = typename fold_left< services, characteristics_from_service >::type;
+        using all_characteristics                    = typename fold_left< services, characteristics_from_service,
+                                                            pair< std::tuple<>, std::integral_constant< std::size_t, 0 > > >::type::first_type;
         using characteristics_with_attribute_indizes = typename fold_left< all_characteristics, impl::add_index_to_characteristic >::type;
         using characteristics_only_with_cccd         = typename fold_left< characteristics_with_attribute_indizes, impl::filter_characteristics_with_cccd >::type;
         using characteristics_with_cccd_position     = typename fold_left< characteristics_only_with_cccd, impl::add_cccd_position >::type;
